@@ -202,6 +202,13 @@ def scenarios_for(tier, rng, starts, scripts):
         for via in ("sub", "unsub"):
             for qos in (1, 2):
                 scr.append(dict(id="wfail-%d-%s-q%d" % (si, via, qos), kind="wfail", hi=s[0], lo=s[1], via=via, ackEvery=qos, per=4))
+    # a Publish that was not acknowledged in time is sent again on the same client (retry handle / the same message once
+    # more): the identifier it was given -- by the caller or by the library -- is the caller's from then on
+    for si, s in enumerate(rst):
+        for sup in (0, 1, 0x1234, 65535):
+            for via in ("handle", "republish"):
+                for qos in (1, 2):
+                    scr.append(dict(id="retx-%d-%d-%s-q%d" % (si, sup, via, qos), kind="retx", hi=s[0], lo=s[1], via=via, ackEvery=qos, script=[dict(sup=sup, qos=qos)]))
     churn = [dict(id="churn", kind="churn", hi=rng.randrange(M16), lo=rng.randrange(1, M16 - 1))]
     return alloc, api, scr, churn
 
